@@ -5,6 +5,9 @@ import LitexProofs.Stream.HandshakeRoute
 import LitexProofs.Stream.HandshakeGearbox
 import LitexModel.Stream.NumG
 import LitexProofs.Stream.HandshakePacket
+import LitexProofs.Stream.HandshakePacketFifo
+import LitexProofs.Stream.HandshakeArbiter
+import LitexProofs.Stream.HandshakePacketizer
 /-
   C04 — Stream elements keep the handshake contract and never stall forever.
 
@@ -229,6 +232,38 @@ theorem compose_accepts {a : Elem α β σ} {b : Elem β γ τ} {Ia : σ → Pro
     (h0a : Ia a.init) (h0b : Ib b.init) : AcceptsWithin (a.comp b) 1 :=
   (ha.comp hb).accepts ⟨h0a, h0b⟩ (fun s i h => by
     rw [comp_step]; exact ⟨hsa s.1 _ h.1, hsb s.2 _ h.2⟩)
+
+/-! ## General progress of `a ⟫ b` (beyond the front/back classes)
+
+  Weakest sufficient condition proved: `a` answers a steady supply with an offer within `Na + 1` cycles whatever its
+  consumer does (`OfferMeasure`), and `b` has a delivery measure bounded by `Bb` that never rises in a cycle without
+  a delivery (`IdleMono`).  Then `a ⟫ b` delivers at least every `(Bb + 1)·(Na + 1)` cooperative cycles, from every
+  reachable state.  The product cannot be improved in general (two cascaded up-converters need `r₁·r₂` sub-words). -/
+
+theorem compose_progress_general {a : Elem α β σ} {b : Elem β γ τ} {Ia : σ → Prop} {Ib : τ → Prop}
+    {ν : σ → Nat} {Na : Nat} {μ : τ → Nat} {Bb : Nat}
+    (ha : OfferMeasure a Ia ν Na) (hb : DelMeasure b Ib μ Bb) (hm : IdleMono b Ib μ)
+    (h0a : Ia a.init) (h0b : Ib b.init) : DeliversWithin (a.comp b) (Bb * (Na + 1) + Na + 1) :=
+  (ha.comp hb hm).delivers ⟨h0a, h0b⟩
+
+/-- Instance outside both classes: a buffered FIFO (needs two cycles to offer) in front of a PipeReady — the
+    driver's `chain_fb_pr d`, compared with `Pipeline(SyncFIFO(d, buffered=True), PipeReady)`. -/
+theorem bufferedFifo_pipeReady_no_livelock (depth : Nat) (hd : 1 ≤ depth) (z : Tok α) :
+    DeliversWithin ((syncFifoBuffered depth z).comp (pipeReady z)) 3 :=
+  compose_progress_general (syncFifoBuffered_offer depth hd z) (pipeReady_measure z) (pipeReady_idleMono z)
+    (by simp [fbInv, syncFifoBuffered]) (by simp [prInv, pipeReady])
+
+theorem bufferedFifo_pipeReady_stable (depth : Nat) (hd : 1 ≤ depth) (z : Tok α) :
+    KeepsContract ((syncFifoBuffered depth z).comp (pipeReady z)) :=
+  keepsContract_of_stepStable ((syncFifoBuffered_stepStable depth hd z).comp (pipeReady_stepStable z))
+    ⟨by simp [fbInv, syncFifoBuffered, Elem.comp], by simp [prInv, pipeReady, Elem.comp]⟩
+
+/-- An up-converter (offers after up to `r` sub-words) in front of a PipeReady: a word at least every `r + 1`
+    cooperative cycles — the bound of the converter alone, so here the general theorem is tight. -/
+theorem upConv_pipeReady_no_livelock {π : Type} (r : Nat) (hr : 0 < r) (z : α) (p0 : π) (z2 : Tok (UpWord α π)) :
+    DeliversWithin ((upConv r z p0).comp (pipeReady z2)) (0 * (r + 1) + r + 1) :=
+  compose_progress_general (upConv_offer r hr z p0) (pipeReady_measure z2) (pipeReady_idleMono z2)
+    (by simpa [upInv, upConv] using hr) (by simp [prInv, pipeReady])
 
 /-! ## _UpConverter / Pack (`upConv r`, `r ≥ 1`) -/
 
@@ -485,6 +520,142 @@ example :
     ((Litex.Packet.dispatcher 3 false).out { first := true, selOngoing := 0 }
       { master := { valid := true, data := 1, last := false }, sel := 1, readys := [true, false, true] }).ready = false := by
   decide
+
+/-! ## packet.PacketFIFO (plain FIFOs)
+
+  `PfLegal pd s i` is the documented store-and-forward limit as an explicit hypothesis on the producer: a non-last
+  beat is offered only while the open packet, with it, still leaves room for its last beat — packets ≤
+  `payload_depth`.  States are those reachable from reset by *any* valid/ready schedule within the limit (`pre`),
+  then `ins` is cooperative (valid = 1, ready = 1) within the limit (`PfCoop`). -/
+
+/-- No deadlock state is reachable: a handshake in every cooperative cycle (a full payload FIFO holds a complete
+    packet, so it is offered; a full param FIFO is a non-empty one).  `param_depth` may be smaller than
+    `payload_depth` (`qd = param_depth + 1 ≥ 1`). -/
+theorem packetfifo_progress (pd qd : Nat) (hpd : 1 ≤ pd) (hqd : 1 ≤ qd) (pre ins : List (In Litex.Packet.PBeat))
+    (hpre : RunC (Litex.Packet.packetFifo pd qd) (Litex.Packet.PfLegal pd) (Litex.Packet.packetFifo pd qd).init pre)
+    (hins : RunC (Litex.Packet.packetFifo pd qd) (Litex.Packet.PfCoop pd)
+      ((Litex.Packet.packetFifo pd qd).runFrom (Litex.Packet.packetFifo pd qd).init pre) ins)
+    (n : Nat) (hn : n * 1 ≤ ins.length) :
+    n ≤ (Litex.Packet.packetFifo pd qd).hsCount
+      ((Litex.Packet.packetFifo pd qd).runFrom (Litex.Packet.packetFifo pd qd).init pre) ins :=
+  Litex.Packet.packetFifo_progress_run pd qd hpd hqd _ (Litex.Packet.pfInv_reach pd qd hpd pre hpre) ins hins n hn
+
+/-- No livelock: a beat of a complete packet is delivered at least every `payload_depth + 1` cooperative cycles. -/
+theorem packetfifo_no_livelock (pd qd : Nat) (hpd : 1 ≤ pd) (hqd : 1 ≤ qd) (pre ins : List (In Litex.Packet.PBeat))
+    (hpre : RunC (Litex.Packet.packetFifo pd qd) (Litex.Packet.PfLegal pd) (Litex.Packet.packetFifo pd qd).init pre)
+    (hins : RunC (Litex.Packet.packetFifo pd qd) (Litex.Packet.PfCoop pd)
+      ((Litex.Packet.packetFifo pd qd).runFrom (Litex.Packet.packetFifo pd qd).init pre) ins)
+    (n : Nat) (hn : n * (pd + 1) ≤ ins.length) :
+    n ≤ ((Litex.Packet.packetFifo pd qd).delivered
+      ((Litex.Packet.packetFifo pd qd).runFrom (Litex.Packet.packetFifo pd qd).init pre) ins).length :=
+  Litex.Packet.packetFifo_delivers_run pd qd hpd hqd _ (Litex.Packet.pfInv_reach pd qd hpd pre hpre) ins hins n hn
+
+/-- Negative witness for the limit (payload_depth 2): two non-last beats fill the FIFO without a complete packet;
+    three further cooperative cycles see no handshake at all.  And non-vacuity: a 2-beat packet goes through. -/
+example :
+    let e := Litex.Packet.packetFifo 2 3
+    let b (l : Bool) : In Litex.Packet.PBeat := ⟨true, ⟨⟨1, 7⟩, false, l⟩, true⟩
+    e.hsCount (e.runFrom e.init [b false, b false]) [b true, b true, b true] = 0 ∧
+    (e.delivered e.init [b false, b true, b false, b true]).length = 2 := by decide
+
+/-! ## packet.Arbiter (n ≥ 2 masters; model of b-c16, round-robin lemmas of b-c06/b-c16)
+
+  States: everything reachable from reset (`(arbiter n).run pre`, any inputs). -/
+
+/-- Stability of the arbiter's source: while the slave stalls an offered beat the grant stays (the granted master's
+    `Status.ongoing` keeps requesting), so a master that re-offers its refused beat unchanged — its `ready` was low:
+    the stream contract — is seen unchanged by the slave in the next cycle. -/
+theorem arbiter_stable (n : Nat) (hn : 2 ≤ n) (pre : List Litex.Packet.ArbIn) (i i' : Litex.Packet.ArbIn)
+    (hv : ((Litex.Packet.arbiter n).out ((Litex.Packet.arbiter n).run pre) i).slave.valid = true)
+    (hr : i.ready = false)
+    (hprod : i'.masters.getD ((Litex.Packet.arbiter n).run pre).grant Litex.Packet.Beat.idle =
+             i.masters.getD ((Litex.Packet.arbiter n).run pre).grant Litex.Packet.Beat.idle) :
+    ((Litex.Packet.arbiter n).out ((Litex.Packet.arbiter n).next ((Litex.Packet.arbiter n).run pre) i) i').slave =
+      ((Litex.Packet.arbiter n).out ((Litex.Packet.arbiter n).run pre) i).slave :=
+  (Litex.Packet.arbiter_hold n hn _ (Litex.Packet.arbiter_grant_lt n hn pre) i i' hv hr hprod).2
+
+/-- Progress: whenever the granted master offers and the slave is ready — in particular whenever every master
+    offers — a beat is transferred in this very cycle. -/
+theorem arbiter_progress (n : Nat) (hn : 2 ≤ n) (pre : List Litex.Packet.ArbIn) (i : Litex.Packet.ArbIn)
+    (hv : (i.masters.getD ((Litex.Packet.arbiter n).run pre).grant Litex.Packet.Beat.idle).valid = true)
+    (hr : i.ready = true) :
+    ((Litex.Packet.arbiter n).out ((Litex.Packet.arbiter n).run pre) i).slave.valid = true ∧
+    ((Litex.Packet.arbiter n).out ((Litex.Packet.arbiter n).run pre) i).readys.getD
+      ((Litex.Packet.arbiter n).run pre).grant false = true :=
+  Litex.Packet.arbiter_moves n _ (Litex.Packet.arbiter_grant_lt n hn pre) i hv hr
+
+/-- No starvation: if every master offers single-beat packets and the slave is ready, master `k` owns the grant after
+    exactly `dist(grant, k) ≤ n − 1` cycles and is served in the cycle that follows: every master is served within the
+    round-robin bound of `n` cycles (the bound the harness measures from every explored state). -/
+theorem arbiter_no_starvation (n : Nat) (hn : 2 ≤ n) (k : Nat) (hk : k < n) (pre ins : List Litex.Packet.ArbIn)
+    (i : Litex.Packet.ArbIn)
+    (hlen : ins.length = Litex.RoundRobin.dist n ((Litex.Packet.arbiter n).run pre).grant k)
+    (hall : ∀ j ∈ ins, Litex.Packet.AllOfferLast n j) (hi : Litex.Packet.AllOfferLast n i) :
+    ins.length ≤ n - 1 ∧
+    ((Litex.Packet.arbiter n).out ((Litex.Packet.arbiter n).runFrom ((Litex.Packet.arbiter n).run pre) ins) i).readys.getD
+      k false = true := by
+  have hg := Litex.Packet.arbiter_grant_lt n hn pre
+  have hreach := Litex.Packet.arbiter_reaches n hn k hk _ _ ins hg hlen.symm rfl hall
+  have hg' : ((Litex.Packet.arbiter n).runFrom ((Litex.Packet.arbiter n).run pre) ins).grant < n := by
+    rw [hreach]; exact hk
+  refine ⟨by rw [hlen]; have := Litex.RoundRobin.dist_lt n ((Litex.Packet.arbiter n).run pre).grant k (by omega); omega, ?_⟩
+  have := (Litex.Packet.arbiter_moves n _ hg' i (by rw [hreach]; exact (hi.2 k hk).1) hi.1).2
+  rw [hreach] at this
+  exact this
+
+/-- Non-vacuity (3 masters, all offering single-beat packets from reset): master 2 is served in cycle 3. -/
+example :
+    let i : Litex.Packet.ArbIn := { masters := [⟨true, 1, true⟩, ⟨true, 2, true⟩, ⟨true, 3, true⟩], ready := true }
+    ((Litex.Packet.arbiter 3).out ((Litex.Packet.arbiter 3).runFrom (Litex.Packet.arbiter 3).init [i, i]) i).readys =
+      [false, false, true] := by decide
+
+/-! ## packet.Packetizer / packet.Depacketizer, header a multiple of the beat (`c.aligned`, `W ≥ 1` header words) -/
+
+theorem packetizer_stable (c : Litex.Packet.PkCfg) (ha : c.aligned = true) :
+    KeepsContract (Litex.Packet.packetizer c) :=
+  keepsContract_of_stepStable (Litex.Packet.packetizer_stepStable c ha)
+    (by simp [Litex.Packet.pkInv, Litex.Packet.packetizer, Litex.Packet.PkState.reset])
+
+/-- Every cooperative cycle delivers a beat (header word or payload), from every reachable state. -/
+theorem packetizer_no_livelock (c : Litex.Packet.PkCfg) (ha : c.aligned = true) :
+    DeliversWithin (Litex.Packet.packetizer c) 1 :=
+  (Litex.Packet.packetizer_measure c ha).delivers
+    (by simp [Litex.Packet.pkInv, Litex.Packet.packetizer, Litex.Packet.PkState.reset])
+
+theorem depacketizer_stable (c : Litex.Packet.PkCfg) (ha : c.aligned = true) (hW : 1 ≤ c.W) :
+    KeepsContract (Litex.Packet.depacketizer c) :=
+  keepsContract_of_stepStable (Litex.Packet.depacketizer_stepStable c ha hW)
+    (by simp [Litex.Packet.dpInv, Litex.Packet.depacketizer, Litex.Packet.PkState.reset])
+
+/-- The `W` header words are swallowed, then every cooperative cycle delivers: a delivery at least every `W + 1`
+    cooperative cycles (the bound the harness measures). -/
+theorem depacketizer_no_livelock (c : Litex.Packet.PkCfg) (ha : c.aligned = true) (hW : 1 ≤ c.W) :
+    DeliversWithin (Litex.Packet.depacketizer c) (c.W + 1) :=
+  (Litex.Packet.depacketizer_measure c ha hW).delivers
+    (by simp [Litex.Packet.dpInv, Litex.Packet.depacketizer, Litex.Packet.PkState.reset])
+
+/-- Non-vacuity: dw = 8, 2-byte header: the instance is aligned with `W = 2`; three cooperative cycles through the
+    Depacketizer from reset deliver exactly one beat. -/
+example :
+    let c : Litex.Packet.PkCfg := ⟨1, 2⟩
+    let b : In Nat := ⟨true, ⟨5, false, false⟩, true⟩
+    c.aligned = true ∧ c.W = 2 ∧
+    ((Litex.Packet.depacketizer c).delivered (Litex.Packet.depacketizer c).init [b, b, b]).length = 1 := by decide
+
+/-
+  Not proved (kept as open statements; the behaviour is validated by the correspondence and the monitors only):
+
+  theorem packetfifo_buffered_progress_open / packetfifo_buffered_no_livelock_open :
+      the `buffered=True` PacketFIFO (two SyncFIFOBuffered): handshake every cooperative cycle, delivery within
+      payload_depth + 2, for packets ≤ payload_depth.
+  theorem packetizer_unaligned_stable_open / depacketizer_unaligned_stable_open :
+      inside C16's `UOk` producer domain, with the padding bytes of a `last` beat masked, the unaligned
+      Packetizer/Depacketizer keep the contract (harness: exhaustive dw16/H3, random dw32/H6, dw64/H11).
+  theorem packetizer_accepts_open : the aligned Packetizer serves its sink: after the W header words every
+      cooperative cycle accepts a beat (AcceptsWithin (W + 1)).
+  theorem arbiter_progress_subset_open : with only some masters offering (and every master that has an open packet
+      among them) a transfer happens within 2 cycles (measured bound K = 2).
+-/
 
 /-! ## packet.Status -/
 
